@@ -78,6 +78,7 @@ func valuesOfTy(r *rng, ty string, n int) []interface{} {
 	case "str":
 		out = append(out, "", "a", "12", "true", "2021-09-24", "é😀\n\t\"\\", "<>& ", " x ", "AQ==", "\xff\xfe", "NaN", "1e2",
 			// every character class the JSON writer treats differently: C0 controls, DEL, C1, U+2028/2029, BOM, non-characters, astral
+			strings.Repeat("long ", 14000), // a line beyond 64 KiB
 			"\x00", "\x01\x07\x0b\x1b\x1f", "\x7f", "\u0080\u009f", "\u2028\u2029", "\ufeff", "\ufffd", "\ufffe", "\U000E0001", "\U0010FFFF", "\b\f\r", "a\x00b")
 		for i := 0; i < n/2; i++ {
 			b := make([]byte, r.intn(6))
@@ -87,7 +88,7 @@ func valuesOfTy(r *rng, ty string, n int) []interface{} {
 			out = append(out, string(b))
 		}
 	case "bytes":
-		out = append(out, []byte{}, []byte{0}, []byte{1, 2, 3}, []byte("12"), []byte{0xff, 0xfe}, []byte("true"), []byte{1, 0, 0, 0, 0, 0, 0, 0})
+		out = append(out, bytes.Repeat([]byte{0xab, 0x00, 0xff}, 17000), []byte{}, []byte{0}, []byte{1, 2, 3}, []byte("12"), []byte{0xff, 0xfe}, []byte("true"), []byte{1, 0, 0, 0, 0, 0, 0, 0})
 		for i := 0; i < n/2; i++ {
 			b := make([]byte, r.intn(10))
 			for j := range b {
